@@ -3,6 +3,7 @@ C10 — Optimizing normalization preserves program behaviour: the registered the
 (The pass-specific lemmas live next to the pass models.)
 -/
 import CweModel.C10.Spec
+import CweModel.C10.TrivialProofs
 
 namespace CweModel.C10
 open CweModel CweModel.IR
